@@ -445,7 +445,23 @@ Section Protocol.
        else if has_flag (own_kd s) KD_ENC_KEY then Some (mkKey own_ltk a true) else None)
       (if mem CMD_IDENTITY_INFORMATION peer_cmds then Some a else None)
       (if mem CMD_SIGNING_INFORMATION peer_cmds then Some a else None)
-      (if has_flag (own_kd s) KD_LINK_KEY then Some (mkKey (derive_lk own_ltk) a false) else None).
+      (* distribute_keys: the BR/EDR link key is derived only from an LE secure connections LTK
+         (fixes/D13d.patch) *)
+      (if has_flag (own_kd s) KD_LINK_KEY && s_sc s && negb bredr
+       then Some (mkKey (derive_lk own_ltk) a false) else None).
+
+  (* CTKD over an encrypted BR/EDR link (after fixes/D13d, D13e): what a side ends with.
+     Session.on_pairing needs self.ltk, which exists only when the side's own mask has ENC_KEY
+     (get_link_key_and_derive_ltk): without it on_pairing raises and nothing is reported or
+     stored (known finding D13f). *)
+  Definition ctkd_store (s : session) (link_key derived_ltk : V) (peer_cmds : list Z) : option (keys V) :=
+    let a := authenticated_flag s in
+    if has_flag (own_kd s) KD_ENC_KEY
+    then Some (mkKeys (Some (mkKey derived_ltk a false)) None None
+                      (if mem CMD_IDENTITY_INFORMATION peer_cmds then Some a else None)
+                      (if mem CMD_SIGNING_INFORMATION peer_cmds then Some a else None)
+                      (Some (mkKey link_key a false)))      (* the fetched link key is stored again *)
+    else None.
 
   (* the bookkeeping before fixes/D13a.patch: both LTKs always written, slots by pairing role *)
   Definition stored_orig (bredr : bool) (s : session) (own_ltk : V) (peer_cmds : list Z)
@@ -671,6 +687,23 @@ Definition run_obs (ci cr : config) (e : env) :=
     (true, (side_obs i, side_obs r), (session_obs si, session_obs sr),
      match link with None => [] | Some (a, b) => [key_name a; key_name b; Z.b2z (term_eqb a b)] end,
      (reconnect_obs (r_store i) (r_store r), reconnect_obs (r_store r) (r_store i)))
+  end.
+
+(* CTKD over BR/EDR between [ci] and [cr] (link key authenticated or not): per side whether it
+   reports completion and the authenticated flags of the slots it stores *)
+Definition ctkd_obs (ci cr : config) (lk_auth : bool) : list (list (list Z)) :=
+  let e := mkEnv true None true true true true 0 None None false false false false lk_auth in
+  let req := request_of ci in
+  match responder_session true cr (default_answer cr req) req with
+  | None => []
+  | Some sr =>
+    match initiator_session true ci (response_of cr sr) with
+    | NegOk si =>
+      let side (s : session) (cmds : list Z) :=
+        keys_obs (ctkd_store term e s (TLk TZero) (TLtk true) cmds) in
+      [side si (distributed (s_sc sr) true (s_rkd sr)); side sr (distributed (s_sc si) true (s_ikd si))]
+    | _ => []
+    end
   end.
 
 (* the exhaustive decide table for the correspondence: one list per (bredr, mitm, sc, initiator) *)
